@@ -158,6 +158,12 @@ impl Object for Loop {
                 Ok(Value::from(false))
             }
         } else if name == "cycle" {
+            if args.is_empty() {
+                return Err(Error::new(
+                    ErrorKind::MissingArgument,
+                    "no items for cycling given",
+                ));
+            }
             let idx = self.idx.load(Ordering::Relaxed);
             match args.get(idx % args.len()) {
                 Some(arg) => Ok(arg.clone()),
